@@ -1,7 +1,7 @@
 (* DrvC14.v — protocol front end for BNodes *)
 From RK Require Import Base Proto BNodes.
 
-(* ops (';'-separated): F S P U M<f|d> b<f|d> s<sf>:<xlabel> a<sf> g<p>:<k> u<p>:<k> m<m>:<k> *)
+(* ops (';'-separated): F S P U M<f|d> b<f|d> s<sf>:<xlabel> a<sf> g<p>:<k> u<p>:<k> m<m>:<k> t<sf>:<p>:<k> *)
 Definition parse_fac (l : bytes) : option (option nat) :=
   match l with
   | [100%N] => Some None
@@ -50,10 +50,29 @@ Definition out_out (o : out) : bytes :=
   | RBad => [33%N]
   end.
 
+Definition parse_sop (l : bytes) : option sop :=
+  match l with
+  | 116%N :: r =>
+      match split_on 58 r with
+      | [a; b; c] => match nat_parse a, nat_parse b, nat_parse c with
+                     | Some sf, Some p, Some k => Some (XGetS sf p k)
+                     | _, _, _ => None
+                     end
+      | _ => None
+      end
+  | _ => option_map XBase (parse_bop l)
+  end.
+
+Definition sout_out (o : sout) : bytes :=
+  match o with
+  | YBase r => out_out r
+  | YStr l => 84%N :: xout l
+  end.
+
 Definition run_bn (args : list bytes) : bytes :=
   match args with
-  | [ops] => match opt_map_all parse_bop (items 59 ops) with
-             | Some ops' => join [59%N] (map out_out (snd (run ops')))
+  | [ops] => match opt_map_all parse_sop (items 59 ops) with
+             | Some ops' => join [59%N] (map sout_out (snd (xrun ops')))
              | None => ERR
              end
   | _ => ERR
